@@ -29,6 +29,8 @@ pub enum Op {
 	SendBA0,
 	SendA1B,
 	InvoiceBA0,
+	/// A issues an invoice into acct1 (dest_acct_name) while another account may be active; B pays
+	InvoiceIntoA1,
 	SelfSendA0A1,
 	SwitchA,
 	RefreshA,
@@ -243,6 +245,7 @@ impl Model for M {
 				Op::SendBA0,
 				Op::SendA1B,
 				Op::InvoiceBA0,
+				Op::InvoiceIntoA1,
 				Op::SelfSendA0A1,
 				Op::SwitchA,
 				Op::RefreshA,
@@ -314,6 +317,26 @@ impl Model for M {
 				};
 				w.w("A").set_account(&active).unwrap();
 				touched_a = Some("m/0/0");
+			}
+			Op::InvoiceIntoA1 => {
+				let a = w.w("A");
+				let b = w.w("B");
+				let r = (|| -> Result<String, crate::libwallet::Error> {
+					let i1 = a.issue_invoice(IssueInvoiceTxArgs { amount: 2 * G, dest_acct_name: Some("acct1".to_owned()), ..Default::default() })?;
+					let i2 = b.process_invoice(&i1, default_args(0))?;
+					b.lock(&i2)?;
+					let i3 = a.foreign_finalize(&i2, false)?;
+					Ok(match a.post(i3.tx_or_err()?) {
+						Ok(()) => "ok".into(),
+						Err(_) => "post-refused".into(),
+					})
+				})();
+				out.label = match r {
+					Ok(l) => l,
+					Err(e) => err_label(&e),
+				};
+				// works on acct1 by name: no other account of A may change
+				touched_a = Some("m/1/0");
 			}
 			Op::SelfSendA0A1 => {
 				w.w("A").set_account("default").unwrap();
